@@ -76,7 +76,10 @@ TStep ==
    /\ Verd(graph => AllObj(post, exp, LAMBDA p, e : p.k = "region" => p.lo = e.lo /\ p.hi = e.hi), "DF_Geometry")
    /\ Verd(graph => AllObj(post, exp, LAMBDA p, e : p.k = "region" => p.units = e.units /\ p.dims = e.dims), "DF_UnitsDims")
    /\ Verd(graph => AllObj(post, exp, LAMBDA p, e : p.k = "mesh" => p.n = e.n /\ p.names = e.names), "DF_Counts")
-   /\ Verd(graph => AllObj(post, exp, LAMBDA p, e : p.k = "field" => p.valid = e.valid), "DF_Validity")
+   /\ LET vsame == AllObj(post, exp, LAMBDA p, e : p.k = "field" => p.valid = e.valid) IN
+         IF c0.op \in ValidFreeOps
+         THEN (IF graph /\ ~vsame THEN PrintT(<<"VALID-FREE", Traces[tid].id, l + 1, c0.op>>) ELSE TRUE)
+         ELSE Verd(graph => vsame, "DF_Validity")
    /\ Verd(graph => AllObj(post, exp, LAMBDA p, e : (p.k = "field" /\ e.vx) => p.vx /\ p.arr = e.arr), "DF_Values")
    /\ Verd(graph => AllObj(post, exp, LAMBDA p, e : p.k = "field" => p.lab = e.lab /\ (e.mx => p.map = e.map)), "DF_Labels")
    /\ Verd(graph => AllObj(post, exp, LAMBDA p, e : p.k = "field" => p.vo = e.vo), "DF_OwnValidity")
